@@ -1139,6 +1139,10 @@ class TrajectoryStore:
         if '_index' in base_nc_file.dataset[0].groups:
             self.index_group = base_nc_file.dataset[0].groups['_index']
             self.indexable = True
+        elif len(base_nc_file.traj_dim[0]) > 0:
+            # An existing store without an index holds trajectories without
+            # flight IDs, so it is not indexable.
+            self.indexable = False
 
         # Open any associated NetCDF files.
         for name in self.associated_files:
